@@ -152,13 +152,29 @@ class LoopbackSoapClient:
     def is_closed(self):
         return self._closed
 
-    def _prepare(self, path, created_message, request_manipulator, validate):
-        """Serialise, log, consult the network hook. Returns (wire, early_result or None, delay_seconds)."""
-        if self._closed:
+    def _prepare(self, path, created_message, request_manipulator, validate, absolute=None):
+        """Serialise, log, consult the network hook. Returns (wire, early_result or None, delay_seconds).
+
+        absolute: a parsed absolute URL that the (aiohttp based) async client was given instead of a path: aiohttp
+        uses such a URL as it is - host, port AND scheme; the TLS context of the session only applies to https."""
+        net = self.network
+        dst, tls = self._netloc, self._ssl_context is not None
+        if absolute is not None:
+            dst = absolute.netloc
+            tls = absolute.scheme == 'https' and self._ssl_context is not None
+            server = net.servers.get(dst)
+            if server is None:
+                raise ConnectionRefusedError(dst)
+            if tls and server.scheme != 'https':
+                import ssl
+                raise ssl.SSLError('WRONG_VERSION_NUMBER (loop-back: peer does not speak TLS)')
+            if not tls and server.scheme == 'https':
+                raise ConnectionResetError('loop-back: plaintext connection to a TLS server')
+            path = absolute.path + ('?' + absolute.query if absolute.query else '')
+        elif self._closed:
             self.connect()
         xml_request = created_message.serialize(request_manipulator=request_manipulator, validate=validate)
-        net = self.network
-        wire = Wire(len(net.log), self.local, self._netloc, path, xml_request, tls=self._ssl_context is not None)
+        wire = Wire(len(net.log), self.local, dst, path, xml_request, tls=tls)
         net.log.append(wire)
         verdict = net.on_post(wire) if net.on_post is not None else None
         if verdict == 'hold':
@@ -215,7 +231,9 @@ class LoopbackSoapClient:
         return self._parse(status_reason, response)
 
     async def async_post_message_to(self, path, created_message, msg='', request_manipulator=None, validate=True):
-        wire, early, delay = self._prepare(path, created_message, request_manipulator, validate)
+        url = urlparse(path)
+        absolute = url if url.scheme in ('http', 'https') and url.netloc else None
+        wire, early, delay = self._prepare(path, created_message, request_manipulator, validate, absolute=absolute)
         if early is not None:
             return self._parse(*early)
         if delay:
